@@ -1,10 +1,12 @@
 package main
 
 import (
+	"fmt"
 	"strings"
 
 	helpers "github.com/SKAARHOJ/rawpanel-lib"
 	rwp "github.com/SKAARHOJ/rawpanel-lib/ibeam_rawpanel"
+	"google.golang.org/protobuf/proto"
 )
 
 // C07: flattening of multi-line payloads and line-feeds in pass-through string fields, through the PUBLIC encoders.
@@ -183,6 +185,14 @@ func genC07(r *Rng, n int, tier string) {
 			emit("strip.field", k, []byte(s))
 		}
 	}
+	// very long physical lines (an already minified profile / topology): 70 000 and 200 000 bytes on one line
+	for _, ln := range []int{70000, 200000} {
+		long := "{\"k\":\"" + strings.Repeat("abcdefghij", ln/10) + "\"}\n  [1,\n 2]\n"
+		emit("strip.json", payloadKinds[r.Intn(len(payloadKinds))], []byte(long))
+		emit("strip.svg", []byte("<svg>\n<path d=\""+strings.Repeat("M1 2 ", ln/5)+"\"/>\n</svg>"))
+	}
+	// the same strings on the wire: ASCII-mode client against a scripted panel; the LF-split stream must be the encoder's strings
+	genC07Wire(r)
 	for i := 0; i < n; i++ {
 		l := r.Range(0, 40)
 		switch r.Intn(3) {
@@ -194,4 +204,32 @@ func genC07(r *Rng, n int, tier string) {
 			emit("strip.field", fieldKinds[r.Intn(len(fieldKinds))], []byte(randText(r, r.Range(0, 12), false)))
 		}
 	}
+}
+
+// C07 wire clause: messages whose strings end in / contain white space and line feeds, written by the real ASCII writer.
+func genC07Wire(r *Rng) {
+	recs := []ndRec{}
+	texts := []string{"ISO ", " lead", "a\nb", "tab\t", "x  ", "\n", "plain", "two\r\nlines "}
+	for si := 0; si < 4; si++ {
+		msgs := []*rwp.InboundMessage{}
+		for j := 0; j < 6; j++ {
+			t := texts[r.Intn(len(texts))]
+			u := texts[r.Intn(len(texts))]
+			msgs = append(msgs, &rwp.InboundMessage{States: []*rwp.HWCState{{HWCIDs: []uint32{uint32(10*si + j + 1)},
+				HWCText: &rwp.HWCText{Title: "T" + u, Formatting: 7, Textline1: "L" + t}}}})
+		}
+		items := [][]byte{}
+		total := 7
+		for _, m := range msgs {
+			b, _ := proto.Marshal(m)
+			items = append(items, b)
+		}
+		for _, l := range helpers.InboundMessagesToRawPanelASCIIstrings(msgs) {
+			total += len(l) + 1
+		}
+		ptoks := ndHandshake("a")
+		ptoks = append(ptoks, fmt.Sprintf("p%d:8000", total))
+		recs = append(recs, ndRecOf("net.c09", []string{"mode=a", "end=150", ndVoc(nil)}, ptoks, []string{"sub", "h", "m" + ndItems(items)}))
+	}
+	ndEmitBatch(recs)
 }
